@@ -235,12 +235,11 @@ class DOK(SparseArray, NDArrayOperatorsMixin):
         """
         ar = cls(x.shape, dtype=x.dtype)
 
-        coords = np.nonzero(~equivalent(x, ar.fill_value))
-        data = x[coords]
+        # `np.argwhere` and mask indexing accept 0-d arrays, `np.nonzero` does not
+        mask = ~equivalent(x, ar.fill_value)
 
-        for c in zip(data, *coords, strict=True):
-            d, c = c[0], c[1:]
-            ar.data[c] = d
+        for c, d in zip(np.argwhere(mask), x[mask], strict=True):
+            ar.data[tuple(c)] = d
 
         return ar
 
